@@ -73,6 +73,10 @@ func (c *c06Cfg) unspell(v string) string {
 	if v == c.na() {
 		return c06NA
 	}
+	if v == c06NA {
+		// the run was given another NA value: a literal "NA" in the output is a value of its own, not the abstract NA
+		return "NA(literal)"
+	}
 	return v
 }
 
@@ -727,6 +731,11 @@ func configsFor(c *c06Case, level string, runs int, seed int64) []*c06Cfg {
 		}
 		cfg.Batch = []int{0, 1, 2}[(x/2)%3]
 		if (x/5)%4 == 3 && level != "demerge" {
+			cfg.NAValue = "none"
+		}
+		// the command line alone wires --na-value to the statistics: with -m and without -c the value given by the
+		// user is what a missing attribute is counted under, in every other binary run of such a case
+		if level == "bin" && len(c.Opt) > 1 && c.Opt[0] == 0 && c.Opt[1] == 1 && k%2 == 0 {
 			cfg.NAValue = "none"
 		}
 		if level != "lib" {
